@@ -294,6 +294,11 @@ Definition lossy_para_like : ParaLike :=
                (fun p => map (fun f => (Some (fst f), print_field f)) p).
 
 (* ------------------------------------------------------------------ back-end 2: lossless::Paragraph *)
+(* A lossless::Paragraph is a handle on a PARAGRAPH node; the model keeps the node's children
+   ([ll_para]); the node itself is [ll_node cs]. *)
+Notation ll_para := (list tree).
+Definition ll_node (cs : ll_para) : tree := Node PARAGRAPH cs.
+
 (* Entry::new(key, value) — the same token sequence is emitted by FromIterator<(String,String)> *)
 Fixpoint value_lines (first : bool) (ls : list str) : list tree :=
   match ls with
@@ -302,8 +307,8 @@ Fixpoint value_lines (first : bool) (ls : list str) : list tree :=
   end.
 Definition new_entry (k v : str) : tree :=
   Node ENTRY (Tok KEY k :: Tok COLON [58%N] :: Tok WHITESPACE [32%N] :: value_lines true (split_lf v)).
-Definition ll_of_list (l : list (str * str)) : tree :=
-  Node PARAGRAPH (map (fun kv => new_entry (fst kv) (snd kv)) l).
+Definition ll_of_list (l : list (str * str)) : ll_para :=
+  map (fun kv => new_entry (fst kv) (snd kv)) l.
 
 Definition is_entry_with_key (k : str) (c : tree) : bool :=
   is_node c && is_kind ENTRY c && opt_str_eqb (entry_key c) k.
@@ -318,13 +323,16 @@ Fixpoint ensure_nl (e : tree) : tree :=
     Node k ((fix go (l : list tree) : list tree :=
                match l with
                | [] => []
-               | [x] => match x with
-                        | Tok k' _ => if kind_eqb k' NEWLINE then [x] else [x; Tok NEWLINE [10%N]]
-                        | Node _ _ => [ensure_nl x]
-                        end
-               | x :: r => x :: go r
+               | x :: r => match r with
+                           | [] => match x with
+                                   | Tok k' _ => if kind_eqb k' NEWLINE then [x] else [x; Tok NEWLINE [10%N]]
+                                   | Node _ _ => [ensure_nl x]
+                                   end
+                           | _ :: _ => x :: go r
+                           end
                end) cs)
   end.
+Definition ensure_nl_children (cs : ll_para) : ll_para := children (ensure_nl (ll_node cs)).
 
 (* which variant of Paragraph::set / remove the source has (read by the translator) *)
 Inductive ll_set_kind : Type :=
@@ -337,50 +345,41 @@ Inductive ll_remove_kind : Type :=
 | LlRemoveAll         (* collect the matching entries, then detach each *)
 | LlRemoveUnrecognised.
 
-Fixpoint replace_first_entry (cs : list tree) (k : str) (e : tree) : option (list tree) :=
+Fixpoint replace_first_entry (cs : ll_para) (k : str) (e : tree) : option ll_para :=
   match cs with
   | [] => None
   | c :: r => if is_entry_with_key k c then Some (e :: r)
               else match replace_first_entry r k e with Some r' => Some (c :: r') | None => None end
   end.
 (* Paragraph::set: splice_children(i..i+1, [new]) at the first entry of that key, else append *)
-Definition ll_set (sk : ll_set_kind) (p : tree) (k v : str) : tree :=
-  match p with
-  | Tok _ _ => p
-  | Node kd cs =>
-    match replace_first_entry cs k (new_entry k v) with
-    | Some cs' => Node kd cs'
-    | None =>
-      match sk with
-      | LlSetEnsureNl => match ensure_nl p with
-                         | Node kd' cs' => Node kd' (cs' ++ [new_entry k v])
-                         | Tok _ _ => p
-                         end
-      | _ => Node kd (cs ++ [new_entry k v])
-      end
+Definition ll_set (sk : ll_set_kind) (cs : ll_para) (k v : str) : ll_para :=
+  match replace_first_entry cs k (new_entry k v) with
+  | Some cs' => cs'
+  | None =>
+    match sk with
+    | LlSetEnsureNl => ensure_nl_children cs ++ [new_entry k v]
+    | _ => cs ++ [new_entry k v]
     end
   end.
-Fixpoint remove_first_entry (cs : list tree) (k : str) : list tree :=
+Fixpoint remove_first_entry (cs : ll_para) (k : str) : ll_para :=
   match cs with
   | [] => []
   | c :: r => if is_entry_with_key k c then r else c :: remove_first_entry r k
   end.
-Definition ll_remove (rk : ll_remove_kind) (p : tree) (k : str) : tree :=
-  match p with
-  | Tok _ _ => p
-  | Node kd cs =>
-    match rk with
-    | LlRemoveFirst => Node kd (remove_first_entry cs k)
-    | _ => Node kd (filter (fun c => negb (is_entry_with_key k c)) cs)
-    end
+Definition ll_remove (rk : ll_remove_kind) (cs : ll_para) (k : str) : ll_para :=
+  match rk with
+  | LlRemoveFirst => remove_first_entry cs k
+  | _ => filter (fun c => negb (is_entry_with_key k c)) cs
   end.
+Definition ll_get (cs : ll_para) (k : str) : option str := get (ll_node cs) k.
+Definition ll_items (cs : ll_para) : list (str * str) := items (ll_node cs).
 (* the printed paragraph is the concatenation of its children's text; an ENTRY child is labelled
    with its key *)
-Definition ll_layout (p : tree) : list (option str * str) :=
-  map (fun c => (if is_node c && is_kind ENTRY c then entry_key c else None, text c)) (children p).
+Definition ll_layout (cs : ll_para) : list (option str * str) :=
+  map (fun c => (if is_node c && is_kind ENTRY c then entry_key c else None, text c)) cs.
 
 Definition lossless_para_like (sk : ll_set_kind) (rk : ll_remove_kind) : ParaLike :=
-  mk_para_like tree get (ll_set sk) (ll_remove rk) ll_of_list items ll_layout.
+  mk_para_like ll_para ll_get (ll_set sk) (ll_remove rk) ll_of_list ll_items ll_layout.
 
 (* ------------------------------------------------------------------ side conditions on a struct table *)
 (* which (serialiser, deserialiser) pairs invert each other (on the value domain [val_dom] of
@@ -447,13 +446,13 @@ Definition sval_eqb (a b : list (option (uval str))) : bool :=
 Notation xval := (list (option (uval str))).
 Definition x_from_lossy (t : ext_table) (fs : list fieldspec) (p : list (str * str)) : dres xval :=
   from_paragraph str (table_parse t) lossy_para_like fs p.
-Definition x_from_ll (t : ext_table) (sk : ll_set_kind) (rk : ll_remove_kind) (fs : list fieldspec) (p : tree) : dres xval :=
+Definition x_from_ll (t : ext_table) (sk : ll_set_kind) (rk : ll_remove_kind) (fs : list fieldspec) (p : ll_para) : dres xval :=
   from_paragraph str (table_parse t) (lossless_para_like sk rk) fs p.
 Definition x_to_lossy (fs : list fieldspec) (v : xval) : option (list (str * str)) :=
   to_paragraph str table_print lossy_para_like fs v.
-Definition x_to_ll (sk : ll_set_kind) (rk : ll_remove_kind) (fs : list fieldspec) (v : xval) : option tree :=
+Definition x_to_ll (sk : ll_set_kind) (rk : ll_remove_kind) (fs : list fieldspec) (v : xval) : option ll_para :=
   to_paragraph str table_print (lossless_para_like sk rk) fs v.
 Definition x_update_lossy (fs : list fieldspec) (v : xval) (p : list (str * str)) : option (list (str * str)) :=
   update_paragraph str table_print lossy_para_like fs v p.
-Definition x_update_ll (sk : ll_set_kind) (rk : ll_remove_kind) (fs : list fieldspec) (v : xval) (p : tree) : option tree :=
+Definition x_update_ll (sk : ll_set_kind) (rk : ll_remove_kind) (fs : list fieldspec) (v : xval) (p : ll_para) : option ll_para :=
   update_paragraph str table_print (lossless_para_like sk rk) fs v p.
